@@ -2,7 +2,8 @@
 C09 — SDK and controller agree on which virtual qubits exist.
 
 Model: `Model/QubitMgr.lean` (SDK handles with mutable virtual ids, lowest-unused id choice, the NV
-relocation with its peephole as coded after the `fix:` commits for F11/F13, EPR handle creation on
+relocation with its peephole as coded after the `fix:` commits for F11/F13, EPR handle creation
+(and release at the end of loop constructs, as coded after the fixes for F12/F29) on
 both hardware configs, and the controller's unit module with K-type delivery).  A pending
 subroutine is its list of allocation-relevant events; `run` executes them on the unit module and
 returns `.error` exactly when an instruction addresses an unallocated / out-of-range virtual
@@ -13,13 +14,15 @@ in-place and destructive measurement, free, EPR keep / sequential / context on b
 flushes) that keeps at most `limit c` qubits alive (`maxq`, one fewer on NV), on generic and NV
 configurations, with and without the NV transpiler:
   `(runOps c St.init ops).2.fatal = false ∧ Inv c (runOps c St.init ops).1`.
-The code violates it in four ways (open findings, counter-examples proved below):
-  F12 context blocks and F29 sequential keeps never release their handles' ids,
-  F28 NV multi-pair keep asserts when an id in 1..n-1 is taken (`nvKeepOk` is exactly the
-      negation of that situation, so every other NV keep is inside the proved part),
-  F30 the NV transpiler's carbon–carbon gates use virtual qubit 0 even if it is not allocated,
-and NV non-sequential context blocks with more than one pair pre-allocate the ids the pairs are
-to be delivered into (covered by the F12 hypothesis).  `good` spells out the hypotheses.
+The code (after the `fix:` commits for F11, F13, F12, F29 and the NV context block) still violates
+it in two ways (open findings, counter-examples proved below):
+  F28 NV multi-pair keep asserts when an id in 1..n-1 is taken,
+  F30 the NV transpiler's carbon–carbon gates use virtual qubit 0 even if it is not allocated.
+`good` spells out exactly these two hypotheses besides the budget and "gates on live handles";
+sequential keeps and context blocks (both roles, sequential or not, any number of pairs) are
+inside the proved part: their loop bodies consume each pair, so the placeholders' ids are
+released at the end of the construct (F12/F29 fixed) and on single-communication-qubit hardware
+a context block handles its pairs in virtual qubit 0.
 -/
 import NetqasmVerif.Lemmas.QubitMgr
 namespace NQ.C09
@@ -68,11 +71,12 @@ theorem step_free_ok {m : Nat} {u u' : List Nat} {v : Nat} (h : step m u (.free 
 /-- the invariant holds initially -/
 theorem inv_init (c : Cfg) : Inv c St.init := QM.inv_init c
 
-/-- **agree_preserved** (partial: `good` excludes the open findings F12, F28, F29, F30).
+/-- **agree_preserved** (partial: `good` excludes the open findings F28 and F30 only).
 For histories of ANY length (induction over the history): no operation faults and the joint
 invariant — pending events run fault-free from the controller's unit module and end in exactly
 the SDK's active id set; ids pairwise distinct, inside the unit module, within the budget — is
-preserved.  Generic and NV configurations, with and without the transpiler. -/
+preserved, for creation, gates, in-place/destructive measurement, free, keep, sequential keep
+with post routine, context blocks (both roles), flush and close.  Generic and NV configurations, with and without the transpiler. -/
 theorem agree_preserved_partial (c : Cfg) (ops : List Op) (hg : good c St.init ops = true) :
     (runOps c St.init ops).2.fatal = false ∧ Inv c (runOps c St.init ops).1 :=
   let h := inv_runOps ops St.init (QM.inv_init c) hg
@@ -149,23 +153,24 @@ example : ((runOps ⟨true, false, 5⟩ St.init [.new, .keep false 1]).1.evs
 
 /-! ### counter-examples: the full statement is false for the code (open findings) -/
 
-/-- F12: two `create_context(number=3)` blocks on five qubits: after block 1 the SDK holds ids
-0,1,2 while the controller has none; block 2 is delivered into ids 3,4,5 → out of range -/
-theorem f12_counterexample :
+/-- F12 (fixed): two `create_context(number=3)` blocks on five qubits now run: after each block
+and flush neither side holds an id -/
+theorem f12_fixed_witness :
     let c : Cfg := ⟨false, false, 5⟩
     let blk : Op := .ctx false 3 false ⟨1, .meas⟩
-    activeIds (runOps c St.init [blk, .flush]).1.hs = [0, 1, 2] ∧
-    (runOps c St.init [blk, .flush]).1.unit = [] ∧
-    (runOps c St.init [blk, .flush, blk, .flush]).2 = .fault .range := by decide
+    good c St.init [blk, .flush, blk, .flush] = true ∧
+    activeIds (runOps c St.init [blk, .flush]).1.hs = [] ∧
+    (runOps c St.init [blk, .flush, blk, .flush]).2 = .ok ∧
+    (runOps c St.init [blk, .flush, blk, .flush]).1.unit = [] := by decide
 
-/-- F29: a sequential keep (post routine measuring each pair) leaves its n handles active with
-one shared id; on NV a later relocation "moves" that non-existent qubit -/
-theorem f29_counterexample :
-    activeIds (runOps ⟨false, false, 2⟩ St.init [.seq false 2 ⟨0, .meas⟩, .flush]).1.hs = [0, 0] ∧
-    (runOps ⟨false, false, 2⟩ St.init [.seq false 2 ⟨0, .meas⟩, .flush]).1.unit = [] ∧
+/-- F29 (fixed): after a sequential keep whose post routine measures each pair no handle is
+active, the id is handed out again, and a later NV relocation has nothing to move -/
+theorem f29_fixed_witness :
+    activeIds (runOps ⟨false, false, 2⟩ St.init [.seq false 2 ⟨0, .meas⟩, .flush]).1.hs = [] ∧
+    good ⟨true, false, 5⟩ St.init
+      [.seq false 3 ⟨0, .meas⟩, .flush, .new, .new, .meas 4 false, .flush] = true ∧
     (runOps ⟨true, false, 5⟩ St.init
-      [.seq false 1 ⟨0, .meas⟩, .flush, .new, .meas 1 false, .flush]).2 = .fault .notAlloc := by
-  decide
+      [.seq false 3 ⟨0, .meas⟩, .flush, .new, .new, .meas 4 false, .flush]).2 = .ok := by decide
 
 /-- F28: NV, five qubits, one live qubit: `recv_keep(number=2)` trips the assertion in
 `_create_ent_qubits` although 3 ≤ 4 qubits are needed -/
@@ -178,10 +183,13 @@ theorem f30_counterexample :
     (runOps ⟨true, true, 5⟩ St.init
       [.new, .new, .new, .meas 0 false, .gate2 1 2, .flush]).2 = .fault .notAlloc := by decide
 
-/-- NV non-sequential context block with two pairs: the ids are allocated *and* named as
-delivery targets, so the first pair can never be delivered (part of the F12 hypothesis) -/
-theorem nv_context_counterexample :
-    (runOps ⟨true, false, 5⟩ St.init [.ctx false 2 false ⟨0, .meas⟩, .flush]).2 = .fault .blocked := by
-  decide
+/-- NV non-sequential context block with three pairs and a live qubit: the live qubit is
+relocated from id 0 and every pair is handled in id 0 (fixed; used to block forever) -/
+theorem nv_context_fixed_witness :
+    good ⟨true, false, 5⟩ St.init [.new, .ctx false 3 false ⟨1, .meas⟩, .flush, .close] = true ∧
+    (runOps ⟨true, false, 5⟩ St.init [.new, .ctx false 3 false ⟨1, .meas⟩, .flush]).1.unit = [1] ∧
+    (runOps ⟨true, false, 5⟩ St.init [.new, .ctx false 3 false ⟨1, .meas⟩]).1.evs
+      = [.alloc 1, .use 1, .deliver 0, .use 0, .use 0, .free 0, .deliver 0, .use 0, .use 0, .free 0,
+         .deliver 0, .use 0, .use 0, .free 0] := by decide
 
 end NQ.C09
